@@ -764,11 +764,17 @@ def rule_orphan(model):
         if st.bottom:
             continue
         v = node.value
-        if not (isinstance(v, ast.Tuple) and len(v.elts) == 3 and all(
-                isinstance(e, ast.Name) for e in v.elts[:2])):
+        if not (isinstance(v, ast.Tuple) and len(v.elts) == 3 and
+                isinstance(v.elts[1], ast.Name) and (
+                    isinstance(v.elts[0], ast.Name) or (
+                        isinstance(v.elts[0], ast.Constant) and
+                        isinstance(v.elts[0].value, int)))):
             raise AnalysisError('opt: return value is not (start, end, '
                                 'size) of plain names')
-        sv, ev = v.elts[0].id, v.elts[1].id
+        # a literal start (constant propagation of `start = 1`) was not
+        # computed from the batch size: only the end side has an obligation
+        sv = v.elts[0].id if isinstance(v.elts[0], ast.Name) else '<const>'
+        ev = v.elts[1].id
         flags = getattr(st, 'flags', frozenset())
         dec = getattr(st, 'decisions', ())
         path = ' & '.join((t if b else f'not ({t})') for t, b in dec)
